@@ -97,8 +97,11 @@ impl Step {
         let name = type_name::<common::Iterations>();
 
         if !self.contains(name) {
-            let value = Box::new(state.iterations());
-            self.entries.insert(0, Entry { name, value });
+            // Outside of any loop there is no iteration counter to log.
+            if let Ok(iterations) = state.try_get_value::<common::Iterations>() {
+                let value = Box::new(iterations);
+                self.entries.insert(0, Entry { name, value });
+            }
         }
     }
 
